@@ -292,12 +292,19 @@ class Gen(object):
         self.ns_req[ch].append((p, u))
         return ["qn", p, u, self.local()]
 
-    def ident_spec(self, ch):
+    def ident_spec(self, ch, kind=None):
         rng = self.rng
+        bykind = self.__dict__.setdefault("_ids_by_kind", {})
         if self.ids[ch] and rng.random() < self.p["p_reuse_id"]:
-            return rng.choice(self.ids[ch])
+            same = bykind.get((ch, kind))
+            if same and rng.random() < self.p.get("reuse_same_kind", 0.3):
+                return rng.choice(same)  # an identifier already used by a record of this kind
+            s = rng.choice(self.ids[ch])
+            bykind.setdefault((ch, kind), []).append(s)
+            return s
         s = self.name_spec(ch)
         self.ids[ch].append(s)
+        bykind.setdefault((ch, kind), []).append(s)
         return s
 
     # ---------------------------------------------------------- value specs
@@ -351,9 +358,15 @@ class Gen(object):
         out = []
         for _ in range(n):
             a = self.attr_name_spec(ch)
-            out.append([a, self.value_for_attr(ch, a)])
+            v = self.value_for_attr(ch, a)
+            out.append([a, v])
             if rng.random() < self.p["multi_value"]:
-                out.append([a, self.value_for_attr(ch, a)])
+                if v[0] == "qn" and v[1] and rng.random() < 0.3 and self.p["value_kinds"].get("uri", 0) > 0:
+                    # the same URI once as a qualified name and once as an xsd:anyURI value:
+                    # two different values that only their kind tells apart
+                    out.append([a, ["uri", v[2] + v[3]]])
+                else:
+                    out.append([a, self.value_for_attr(ch, a)])
         return out
 
     def value_for_attr(self, ch, a):
@@ -399,7 +412,7 @@ class Gen(object):
         tname, formals, is_el = pools.KINDS[kind]
         via = via or wchoice(rng, self.p["vias"])
         if is_el or rng.random() >= self.p["p_anon"]:
-            idspec = self.ident_spec(ch)
+            idspec = self.ident_spec(ch, kind)
         else:
             idspec = None
         mask = self.p["mask"]
